@@ -42,7 +42,7 @@ def sh(*a, **k):
 
 
 def run_one(job):
-    mut, slot, tier, suite, workers = job
+    mut, slot, tier, suite, workers, no_checks = job
     mid, props, f, old, new, note = mut
     scr = f"/tmp/dfmutrun_{os.getpid()}_{slot}"
     head = sh("git", "-C", "/repo", "rev-parse", "HEAD").stdout.strip()
@@ -65,7 +65,7 @@ def run_one(job):
             res["error"] = "does not import: " + imp.stderr[-300:]
             return res
         res["checks"] = {}
-        for prop in props:
+        for prop in ([] if no_checks else props):
             env = dict(os.environ, DFMON_REPO=scr, DFMON_NO_EVIDENCE="1",
                        DFMON_REPLAY_DIR=f"/tmp/dfmutrun_replays_{os.getpid()}_{slot}")
             t0 = time.time()
@@ -101,6 +101,7 @@ def main():
     ap.add_argument("--only", default="")
     ap.add_argument("--part", default="")
     ap.add_argument("--suite", action="store_true")
+    ap.add_argument("--no-checks", action="store_true", help="with --suite: only run the repository's tests")
     ap.add_argument("--workers", type=int, default=4)
     ap.add_argument("--out", default=os.path.join(ROOT, "tools", "mutation_results.json"))
     args = ap.parse_args()
@@ -111,7 +112,8 @@ def main():
     ids = [m[0] for m in corpus]
     assert len(ids) == len(set(ids)), "duplicate mutant ids"
     results = json.load(open(args.out)) if os.path.exists(args.out) else {}
-    jobs = [(m, k % args.j, args.tier, args.suite, args.workers) for k, m in enumerate(corpus)]
+    jobs = [(m, k % args.j, args.tier, args.suite, args.workers, args.no_checks)
+            for k, m in enumerate(corpus)]
     # one worktree per slot: run the jobs of a slot sequentially, the slots in parallel
     by_slot = {}
     for j in jobs:
@@ -133,6 +135,8 @@ def main():
                 prev = results.get(r["id"], {})
                 if "suite" in prev and "suite" not in r:
                     r["suite"] = prev["suite"]
+                if args.no_checks and prev.get("checks"):
+                    r["checks"] = prev["checks"]
                 results[r["id"]] = r
     for slot in by_slot:
         sh("git", "-C", "/repo", "worktree", "remove", "--force", f"/tmp/dfmutrun_{os.getpid()}_{slot}")
